@@ -245,7 +245,11 @@ def correspondence(bdir, modules, cases, log, tag, shard=250, timeout=900):
         tr = T.Translator(REPO, modules, extra=[(name, src)])
         # mark everything in the real modules as already emitted (they are compiled in gen/)
         rep = json.load(open(os.path.join(cdir, "REPORT-" + "-".join(modules) + ".json")))
-        tr.run(wanted={name: ["*"]})
+        # the same full, ordered translation that produced gen/M_*.v (so every function and
+        # operator wrapper of the real modules is available, under the same names), with the
+        # case module last
+        sys.setrecursionlimit(50000)
+        tr.run()
         bad = [(i, tr.report.get("case_%d" % j)) for j, i in enumerate(idxs) if tr.report.get("case_%d" % j) != "ok"]
         for i, why in bad:
             res["errors"].append("case %d (%s): %s" % (i, cases[i], why))
